@@ -114,13 +114,14 @@ def cargo_build(nan_boxing=False, release=False, bin="vharness"):
 
 def _run_shard(args):
     harness, reqs, timeout = args
+    cmd = [harness] if os.path.basename(harness) == "vh_runchk" else [harness, "runbatch"]
     """reqs: list of request lines for `vharness runbatch`. Returns list of dict (one per request)."""
     out = []
     i = 0
     while i < len(reqs):
         chunk = reqs[i:]
         try:
-            p = subprocess.run([harness, "runbatch"], input="".join(r + "\n" for r in chunk), stdout=subprocess.PIPE,
+            p = subprocess.run(cmd, input="".join(r + "\n" for r in chunk), stdout=subprocess.PIPE,
                                stderr=subprocess.PIPE, text=True, timeout=timeout)
             lines = [l for l in p.stdout.split("\n") if l.strip()]
             rc = p.returncode
@@ -145,11 +146,11 @@ def _run_shard(args):
     return out
 
 
-def run_batch(reqs, nan_boxing=False, release=False, jobs=None, timeout=600):
+def run_batch(reqs, nan_boxing=False, release=False, jobs=None, timeout=600, bin="vharness"):
     """Run request lines (`[options] file`) through `vharness runbatch`, sharded over processes;
     a host abort/segfault/timeout is isolated to the single request that caused it."""
     import concurrent.futures
-    harness = harness_path(nan_boxing, release)
+    harness = harness_path(nan_boxing, release, bin=bin)
     jobs = jobs or NCPU
     n = max(1, min(jobs, (len(reqs) + 7) // 8))
     shards = [reqs[k::n] for k in range(n)]
